@@ -15,8 +15,10 @@ package liveness
 // the correspondence.
 
 import (
+	"context"
 	"errors"
 	"fmt"
+	"net"
 	"os"
 	"runtime"
 	"sort"
@@ -54,13 +56,74 @@ type c18Op struct {
 	now   int64
 	addr  string
 	port  uint16
-	probe bool
+	probe bool // the boolean a probe would return …
+	perr  byte // … and the error that comes with it (c18ErrKinds; 0 = the built-in pairing of the boolean)
 }
 
 type c18Meas struct {
 	t    int64
 	v    bool
+	e    byte
 	port uint16
+}
+
+// The probe function returns a pair.  The built-in scanner only produces (true, ErrLiveHost | dial
+// error) and (false, NotLive | wrapped NotLive), but the function is injectable and the property
+// speaks of "the verdict that was measured" - the boolean - whatever error travels with it.  The
+// scripted probe therefore returns the full product {true, false} x c18ErrKinds:
+//
+//	'-' nil   'n' NotLive itself   'w' an error wrapping NotLive (the scanner's default branch)
+//	'l' ErrLiveHost   'o' another error (a dial failure)   'c' context.Canceled   'd' context.DeadlineExceeded
+const c18ErrKinds = "-nwlocd"
+
+func c18Pairing(v bool) byte {
+	if v {
+		return 'l'
+	}
+	return 'w'
+}
+
+// c18MakeErr builds a fresh error value of the kind (sentinels are returned as they are, the way the
+// scanner returns them: code comparing with == must see them).
+func c18MakeErr(kind byte, address string) error {
+	switch kind {
+	case '-':
+		return nil
+	case 'n':
+		return NotLive
+	case 'w':
+		return fmt.Errorf("%w %v", NotLive, 750*time.Millisecond)
+	case 'l':
+		return ErrLiveHost
+	case 'o':
+		return &net.OpError{Op: "dial", Net: "tcp", Err: errors.New("no route to host " + address)}
+	case 'c':
+		return context.Canceled
+	case 'd':
+		return context.DeadlineExceeded
+	}
+	panic("c18MakeErr: unknown kind " + string(kind))
+}
+
+// c18ErrKind classifies an error the tester returned, by the same questions code could ask of it.
+func c18ErrKind(err error) byte {
+	switch {
+	case err == nil:
+		return '-'
+	case errors.Is(err, ErrCachedPhantom):
+		return 'C'
+	case err == NotLive:
+		return 'n'
+	case errors.Is(err, NotLive):
+		return 'w'
+	case errors.Is(err, ErrLiveHost):
+		return 'l'
+	case errors.Is(err, context.Canceled):
+		return 'c'
+	case errors.Is(err, context.DeadlineExceeded):
+		return 'd'
+	}
+	return 'o'
 }
 
 // c18Span: the measurement of one address taken at `from` was still answered from the cache at `to`
@@ -69,14 +132,14 @@ type c18Span struct {
 	from, to int64
 }
 
-var errC18Probe = errors.New("scripted probe answer")
-
 type c18World struct {
 	conf     c18Conf
 	t        Tester
 	newErr   error
 	calls    []string // addresses the probe function was called with during the current operation
-	script   bool
+	script   bool     // what the probe returns when it is called: the boolean …
+	scriptE  byte     // … and the kind of error
+	probeErr error    // the error value the probe returned last
 	meas     map[string][]c18Meas // ground truth: every probe observed per address
 	gone     [2]map[string]bool   // address whose entry was seen to leave cache v (evicted / cleared)
 	keysPrev [2]map[string]bool
@@ -119,10 +182,8 @@ func newC18World(c c18Conf) *c18World {
 	w.t, w.newErr = New(&Config{CacheDuration: c.durL, CacheCapacity: c.capL, CacheDurationNonLive: c.durN, CacheCapacityNonLive: c.capN})
 	probe := func(address string) (bool, error) {
 		w.calls = append(w.calls, address)
-		if w.script {
-			return true, fmt.Errorf("%w: %w", errC18Probe, ErrLiveHost)
-		}
-		return false, fmt.Errorf("%w: %w", errC18Probe, NotLive)
+		w.probeErr = c18MakeErr(w.scriptE, address)
+		return w.script, w.probeErr
 	}
 	switch tt := w.t.(type) {
 	case *UncachedLivenessTester:
@@ -357,8 +418,16 @@ func runC18(out *vlib.Out, conf c18Conf, ops []c18Op) (model string, impl string
 		var o string
 		switch op.kind {
 		case 'q':
-			mops = append(mops, fmt.Sprintf("q,%d,%s,%d,%s", op.now, op.addr, op.port, vlib.B(op.probe)))
-			w.script = op.probe
+			if op.perr == 0 {
+				op.perr = c18Pairing(op.probe)
+			}
+			mops = append(mops, fmt.Sprintf("q,%d,%s,%d,%s,%c", op.now, op.addr, op.port, vlib.B(op.probe), op.perr))
+			w.script, w.scriptE, w.probeErr = op.probe, op.perr, nil
+			// white-box: the element each cache holds for the address before the call
+			var before [2]*cacheElement
+			for _, v := range []bool{true, false} {
+				before[c18Idx(v)] = c18Elems(w.cache(v))[op.addr]
+			}
 			live, err := w.t.PhantomIsLive(op.addr, op.port)
 			if time.Since(w.rnow) > c18StallLimit {
 				return "", "", false
@@ -368,7 +437,7 @@ func runC18(out *vlib.Out, conf c18Conf, ops []c18Op) (model string, impl string
 			case cachedAns && len(w.calls) == 0:
 				o = "c" + vlib.B(live)
 			case !cachedAns && len(w.calls) == 1:
-				o = "p" + vlib.B(live)
+				o = "p" + vlib.B(live) + string(c18ErrKind(err))
 			default:
 				o = fmt.Sprintf("?calls=%d,err=%v", len(w.calls), err)
 			}
@@ -387,7 +456,7 @@ func runC18(out *vlib.Out, conf c18Conf, ops []c18Op) (model string, impl string
 				default:
 					last := ms[len(ms)-1]
 					if last.v != live {
-						fail("C18:served-flipped", fmt.Sprintf("%s served %v at %d, last measurement was %v at %d", op.addr, live, op.now, last.v, last.t))
+						fail("C18:served-flipped", fmt.Sprintf("%s served %v at %d, last measurement was (%v, error kind %c) at %d", op.addr, live, op.now, last.v, last.e, last.t))
 					} else if op.now-last.t >= lt {
 						fail("C18:served-stale", fmt.Sprintf("%s served %v at %d, measured at %d, lifetime %d", op.addr, live, op.now, last.t, lt))
 					} else {
@@ -424,12 +493,24 @@ func runC18(out *vlib.Out, conf c18Conf, ops []c18Op) (model string, impl string
 				}
 				if len(w.calls) != 1 || w.calls[0] != want {
 					fail("C18:not-probed-once", fmt.Sprintf("%s: probe calls %v, want exactly [%s]", op.addr, w.calls, want))
-				} else if live != op.probe || !errors.Is(err, errC18Probe) {
-					fail("C18:probe-verdict-altered", fmt.Sprintf("%s: probe said %v, tester returned %v / %v", op.addr, op.probe, live, err))
+				} else {
+					// the verdict is the boolean; the error the probe returned must still be recognisable in
+					// what the tester returns (it may be wrapped)
+					if live != op.probe || (w.probeErr != nil && !errors.Is(err, w.probeErr)) {
+						fail("C18:probe-verdict-altered", fmt.Sprintf("%s: probe said (%v, %v), tester returned (%v, %v)", op.addr, op.probe, w.probeErr, live, err))
+					}
+					// the measurement is filed under its own boolean and nowhere else, whatever error came
+					// with it (white-box; in a configuration without a cache for that boolean: nowhere)
+					out.Checked()
+					if e := c18Elems(w.cache(!op.probe))[op.addr]; e != before[c18Idx(!op.probe)] {
+						fail("C18:stored-under-other-verdict:"+c18Which(!op.probe), fmt.Sprintf("%s: the probe returned (%v, error kind %c) and the %s cache got a new entry for the address (caches L=%s N=%s)",
+							op.addr, op.probe, op.perr, c18Which(!op.probe), c18Kind(w.cache(true)), c18Kind(w.cache(false))))
+					}
+					out.Count(fmt.Sprintf("probe:%s,%c", vlib.B(op.probe), op.perr))
 				}
 			}
 			for range w.calls {
-				w.meas[op.addr] = append(w.meas[op.addr], c18Meas{op.now, op.probe, op.port})
+				w.meas[op.addr] = append(w.meas[op.addr], c18Meas{op.now, op.probe, op.perr, op.port})
 			}
 			out.Count("out:" + o[:1])
 		case 'c':
@@ -499,6 +580,7 @@ type c18Sym struct {
 	kind  byte // 'q', 'c', 'a' (advance whole hours, not an operation of the tester), 'n' (query near a lifetime boundary)
 	addr  int
 	probe bool
+	perr  byte // error kind of the probe result (0 = the built-in pairing)
 	hours int
 	back  int  // 'n': which earlier query of the same address is the reference (0 = the most recent)
 	after bool // 'n': 1 s after the boundary instead of 1 s before
@@ -563,6 +645,10 @@ func c18Build(conf c18Conf, syms []c18Sym, r *vlib.Rand) []c18Op {
 			op.kind = 'q'
 			op.addr = c18Addrs[s.addr]
 			op.probe = s.probe
+			op.perr = s.perr
+			if op.perr == 0 {
+				op.perr = c18Pairing(op.probe)
+			}
 			op.port = 443
 			if r != nil && r.Chance(1, 4) {
 				op.port = uint16(r.Range(1, 65535))
@@ -605,6 +691,7 @@ func TestVerifC18(t *testing.T) {
 		return c18Sym{kind: 'n', addr: a, probe: p, live: live, after: after}
 	}
 	clr := c18Sym{kind: 'c'}
+	qe := func(a int, p bool, e byte) c18Sym { return c18Sym{kind: 'q', addr: a, probe: p, perr: e} }
 
 	// ---- corpus: hand-written tricky histories
 	corpus := []struct {
@@ -647,6 +734,18 @@ func TestVerifC18(t *testing.T) {
 	for _, c := range corpus {
 		run(c.c, c.s, nil)
 	}
+	// every probe result (boolean x error kind) in every kind of configuration: asked again at once (a
+	// hit must carry the measured boolean), after the host changed state, 1 s before and after the
+	// measurement reaches its lifetime, across a clean-up
+	for _, conf := range []c18Conf{{"2h", "1h", 0, 0}, {"2h", "1h", 2, 1}, {"2h", "", 0, 0}, {"2h", "", 1, 0}, {"", "1h", 0, 0}, {"", "1h", 0, 2}, {"", "", 0, 0}} {
+		for _, v := range []bool{true, false} {
+			for _, e := range []byte(c18ErrKinds) {
+				run(conf, []c18Sym{qe(0, v, e), qe(0, v, e), qe(1, !v, e), qe(0, !v, 0), qe(1, !v, 0),
+					{kind: 'n', addr: 0, probe: v, perr: e, live: v, back: 2}, {kind: 'n', addr: 0, probe: v, perr: e, live: v, back: 3, after: true},
+					qe(0, v, e), adv(3), qe(0, !v, e), clr, qe(0, v, e), qe(0, v, 0)}, nil)
+			}
+		}
+	}
 
 	// ---- exhaustive: every history up to length L over a small alphabet, for every cache shape
 	alpha := []c18Sym{q(0, true), q(0, false), q(1, true), q(1, false), q(2, true), q(2, false), adv(1), clr}
@@ -681,6 +780,18 @@ func TestVerifC18(t *testing.T) {
 	for _, conf := range shapes {
 		rec(nil, conf)
 	}
+	// the same with the probe result as a pair: one address with the full product boolean x error kind,
+	// a second address with the built-in pairings, advance, clean-up
+	alpha = []c18Sym{q(1, true), q(1, false), adv(1), clr}
+	for _, v := range []bool{true, false} {
+		for _, e := range []byte(c18ErrKinds) {
+			alpha = append(alpha, qe(0, v, e))
+		}
+	}
+	L--
+	for _, conf := range shapes {
+		rec(nil, conf)
+	}
 
 	// ---- random configurations × random long histories
 	r := vlib.NewRand("C18")
@@ -707,6 +818,25 @@ func TestVerifC18(t *testing.T) {
 		// three styles: mixed; "busy" (few advances: entries are hit again and again until they expire);
 		// "churn" (many distinct hosts, no advances: evictions)
 		style := r.Intn(4)
+		// error that comes with a probe's boolean: per history either always the built-in pairing, or a
+		// fixed error kind per address (a scanner that keeps failing the same way), or anything per probe
+		errStyle := r.Intn(4)
+		addrErr := make([]byte, len(c18Addrs))
+		for j := range addrErr {
+			addrErr[j] = c18ErrKinds[r.Intn(len(c18ErrKinds))]
+		}
+		pickErr := func(a int) byte {
+			switch errStyle {
+			case 0:
+				return 0
+			case 1:
+				return addrErr[a]
+			}
+			if r.Chance(1, 3) {
+				return 0
+			}
+			return c18ErrKinds[r.Intn(len(c18ErrKinds))]
+		}
 		for j, m := 0, r.Range(3, 300); j < m; j++ {
 			k := r.Intn(20)
 			if style == 1 && k >= 14 && k < 18 && r.Chance(2, 3) {
@@ -719,11 +849,11 @@ func TestVerifC18(t *testing.T) {
 			case k < 12:
 				// hosts mostly keep their state, sometimes flip
 				a := r.Intn(na)
-				syms = append(syms, q(a, (a%2 == 0) != r.Chance(1, 5)))
+				syms = append(syms, qe(a, (a%2 == 0) != r.Chance(1, 5), pickErr(a)))
 			case k < 14:
 				// 1 s before / after an earlier query of this address reaches a lifetime
 				a := r.Intn(na)
-				syms = append(syms, c18Sym{kind: 'n', addr: a, probe: (a%2 == 0) != r.Chance(1, 5), back: r.Intn(4), after: r.Bool(), live: r.Bool()})
+				syms = append(syms, c18Sym{kind: 'n', addr: a, probe: (a%2 == 0) != r.Chance(1, 5), perr: pickErr(a), back: r.Intn(4), after: r.Bool(), live: r.Bool()})
 			case k < 17:
 				syms = append(syms, adv(r.Range(1, 3)))
 			case k < 18:
@@ -792,11 +922,11 @@ func c18Stress(out *vlib.Out, r *vlib.Rand, rounds int) {
 		for h := 0; h < maxHosts; h++ {
 			hostIdx[hostName(h)+":443"] = h
 		}
+		var nProbe atomic.Uint64
 		clt.phantomIsLive = func(address string) (bool, error) {
-			if state[hostIdx[address]].Load() {
-				return true, ErrLiveHost
-			}
-			return false, NotLive
+			// the error that comes with the boolean runs through every kind
+			n := nProbe.Add(1)
+			return state[hostIdx[address]].Load(), c18MakeErr(c18ErrKinds[(n*2654435761>>7)%uint64(len(c18ErrKinds))], address)
 		}
 		// age one entry of a cache past its lifetime.  The element is replaced, not written to:
 		// lruCache.Lookup reads cachedTime after releasing the lock.
@@ -993,10 +1123,17 @@ func c18Replay(t *testing.T, out *vlib.Out, path string) {
 		for _, s := range strings.Split(f[5], ";") {
 			p := strings.Split(s, ",")
 			switch {
-			case len(p) == 5 && p[0] == "q":
+			case (len(p) == 5 || len(p) == 6) && p[0] == "q":
 				now, _ := strconv.ParseInt(p[1], 10, 64)
 				port, _ := strconv.Atoi(p[3])
-				ops = append(ops, c18Op{kind: 'q', now: now, addr: p[2], port: uint16(port), probe: p[4] == "1"})
+				op := c18Op{kind: 'q', now: now, addr: p[2], port: uint16(port), probe: p[4] == "1"}
+				if len(p) == 6 {
+					if len(p[5]) != 1 || !strings.Contains(c18ErrKinds, p[5]) {
+						t.Fatalf("bad probe error kind in %q", s)
+					}
+					op.perr = p[5][0]
+				}
+				ops = append(ops, op)
 			case len(p) == 2 && p[0] == "c":
 				now, _ := strconv.ParseInt(p[1], 10, 64)
 				ops = append(ops, c18Op{kind: 'c', now: now})
